@@ -334,12 +334,15 @@ class Env:
             raise make_exc(f["kind"])
 
     def astart(self, ctx) -> None:
-        self.trace.append({"e": "astart", "n": ctx.attempt})
+        self.trace.append({"e": "astart", "n": ctx.attempt, "t": self.now()})
         self._fault("astart")
 
     def aend(self, ctx) -> None:
         self.trace.append({"e": "aend", "n": ctx.attempt,
-                           "decision": ctx.decision.value if ctx.decision is not None else "-"})
+                           "decision": ctx.decision.value if ctx.decision is not None else "-",
+                           "stop": ctx.stop_reason.value if ctx.stop_reason is not None else "-",
+                           "cause": ctx.cause if ctx.cause is not None else "-",
+                           "sleep": ticks(ctx.sleep_s), "t": self.now()})
         self._fault("aend")
 
     def _hook_raises(self, name: str) -> None:
@@ -552,6 +555,9 @@ def retry_kwargs(env: Env, cfg: dict, *, place: str = "call", atimeout: bool = F
         operation="op" if cfg["opname"] else None,
         abort_if=env.abort_if if cfg["abort"] else None,
     )
+    if cfg.get("hooks"):
+        # per-call hooks (RetryPolicy's constructor has no hook parameters)
+        call.update(on_attempt_start=env.astart, on_attempt_end=env.aend)
     handler = env.handler if cfg["handler"] else None
     if env.is_async and env.async_callbacks == "lambda":
         # awaitables produced by plain callables (not coroutine functions)
